@@ -229,6 +229,8 @@ fn factor_impl(
     factors: &mut Vec<Uint>,
     tpool: Option<&rayon::ThreadPool>,
 ) {
+    #[cfg(yamaquasi_verif)]
+    simsync::probe::observe("factor_impl_input", &n);
     // Since quadratic sieve methods work by finding non-trivial random
     // elements of multiplicative order 2 modulo n they will fail to resolve
     // prime power factors of n (because Z/p^k Z is cyclic).
